@@ -90,7 +90,9 @@ GFinish(f, n) == LET s == Get(f) IN s.st = "catch" /\ s.hs # <<>> /\ n = Last(s.
 Finish(f, n) == GFinish(f, n) /\ Put(f, [Get(f) EXCEPT !.fr = n, !.st = "run"])
 
 \* a native calls back into the interpreter
-GEnter(f, d) == LET s == Get(f) IN s.st = "run" /\ d = s.fr
+\* ("pending": a catch clause that is not a class drops the handler, and the runtime builds the type error by
+\* calling its class before the search goes on)
+GEnter(f, d) == LET s == Get(f) IN s.st \in {"run", "pending"} /\ d = s.fr
 Enter(f, d) == GEnter(f, d) /\ Put(f, [Get(f) EXCEPT !.ns = Append(@, d)])
 
 \* ... and the loop it started ends: normally only with the frames back at its depth; with the error
